@@ -571,6 +571,15 @@ class Interp:
         f = t["f"]
         site = t["sp"]
         if f.get("indirect"):
+            # a call through a function pointer / `dyn Fn`: evaluated when the pointer is a known function item or closure
+            if f.get("op") is not None and fid is not None:
+                try:
+                    fv = self.operand(fid, f["op"])
+                    cl = self.deref_val(fv)
+                    if cl is not None and cl[0] in ("fn", "closure"):
+                        return self.apply(fv, list(args), depth)
+                except Unsupported:
+                    pass
             self.events.append(("call", "indirect", [], site))
             return TOP
         name = f.get("name") or ""
@@ -690,6 +699,18 @@ class Interp:
             return Some(TOP)
         if name in ("not",) and len(args) == 1 and is_int(d0):
             return Int(1 - d0[1])
+        # operator traits on integers reached through references (`*a ^= b` with b: &u8 is a trait call in MIR)
+        OPS = {"bitxor": "BitXor", "bitor": "BitOr", "bitand": "BitAnd", "add": "Add", "sub": "Sub", "mul": "Mul"}
+        if len(args) == 2 and "ops::" in path + full and (name in OPS or (name.endswith("_assign") and name[:-7] in OPS)):
+            x, y = self.resolve(args[0]), self.resolve(args[1])
+            if is_int(x) and is_int(y):
+                r = self.binop(OPS[name[:-7] if name.endswith("_assign") else name], x, y, site)
+                if name.endswith("_assign"):
+                    if a0 is not None and a0[0] == "ref" and is_int(r):
+                        self.write_loc(a0[1], r)
+                        return UNIT
+                elif is_int(r):
+                    return r
         # --- comparisons
         if name in ("eq", "ne") and len(args) == 2 and "cmp::PartialEq" in path + full:
             e = self.equal(args[0], args[1], site)
@@ -818,6 +839,12 @@ class Interp:
             return self.call_body(cl[1], [selfv] + list(argv), depth + 1)
         if cl is not None and cl[0] == "fn" and cl[1] in self.f.bodies:
             return self.call_body(cl[1], list(argv), depth + 1)
+        if cl is not None and cl[0] == "fn" and "::" in cl[1] and cl[1].rsplit("::", 1)[0] in self.f.adts:
+            # the constructor of a tuple variant / tuple struct used as a function (`FilterKind::Exact as fn(Bytes) -> _`)
+            parent, vname = cl[1].rsplit("::", 1)
+            vnames = [v["name"] for v in self.f.adts[parent]["variants"]]
+            if vname in vnames:
+                return Adt(parent, vnames.index(vname), {i: v for i, v in enumerate(argv)})
         if cl is not None and cl[0] == "fn":
             # a foreign function item used as a callback (`.filter_map(Result::ok)`, `.map(Bytes::from)`): the same call the
             # closure `|x| f(x)` would make
